@@ -1,4 +1,5 @@
 import GtfsVerif.Model.Realtime
+import GtfsVerif.Props.C02
 import GtfsVerif.Gen.Regex
 /-! # C17 — NYCT alerts extension groups elevator alerts and maps Mercury data as documented
 
@@ -693,4 +694,106 @@ theorem C17_group_stops_perm (o : NyctAlertsOpts) (es es' : List Entity) (hp : e
   rw [mem_firstOccurrences, mem_firstOccurrences]
   exact (hp.filterMap _).mem_iff
 
+end Gtfs.Rt
+
+namespace Gtfs.Rt
+
+/-! ## composition with ParseRealtime's merge loop: the groups as they appear in `Realtime.Alerts` -/
+
+
+/-- the entry at every group's position comes from an alert-only entity -/
+def AOnly (st : AlertPass) : Prop :=
+  ∀ k i, alookup k st.groups = some i → ∃ p, st.done[i]? = some p ∧ p.1.tripUpdate = none ∧ p.1.vehicle = none
+
+theorem passStep_AOnly (o : NyctAlertsOpts) (st : AlertPass) (e : Entity) (h : AOnly st) : AOnly (passStep o st e) := by
+  have keep : ∀ (x : Entity × Bool), AOnly { st with done := st.done ++ [x] } := by
+    intro x k i hl
+    obtain ⟨p, hp, h1, h2⟩ := h k i hl
+    exact ⟨p, by simp only; rw [List.getElem?_append_left (getElem?_lt_of_some _ _ _ hp)]; exact hp, h1, h2⟩
+  unfold passStep
+  split
+  · next a htu hv ha =>
+    unfold alertPassStep
+    cases hm : matchElevator e.id with
+    | none => exact keep _
+    | some m =>
+      obtain ⟨station, suffix, elevator⟩ := m
+      simp only
+      cases hl : alookup (elevatorNewId o station suffix elevator) st.groups with
+      | some i =>
+        intro k j hlj
+        simp only at hlj
+        obtain ⟨p, hp, h1, h2⟩ := h k j hlj
+        have hj := getElem?_lt_of_some _ _ _ hp
+        refine ⟨(if j = i then ({ p.1 with alert := p.1.alert.map fun fa => addInformedStop fa (if o.useStationIds then station else station ++ suffix) }, p.2) else p), ?_, ?_, ?_⟩
+        · simp only
+          rw [List.getElem?_append_left (by rw [modifyAt_length]; exact hj), modifyAt_getElem?, hp]
+          simp only [Option.map_some]
+        · split <;> exact h1
+        · split <;> exact h2
+      | none =>
+        intro k j hlj
+        simp only at hlj
+        rw [alookup_append] at hlj
+        cases hlk : alookup k st.groups with
+        | some j' =>
+          rw [hlk] at hlj
+          simp only [Option.some_or, Option.some.injEq] at hlj
+          subst hlj
+          obtain ⟨p, hp, h1, h2⟩ := h k j' hlk
+          exact ⟨p, by simp only; rw [List.getElem?_append_left (getElem?_lt_of_some _ _ _ hp)]; exact hp, h1, h2⟩
+        | none =>
+          rw [hlk] at hlj
+          simp only [Option.none_or, alookup] at hlj
+          split at hlj
+          · simp only [Option.some.injEq] at hlj
+            subst hlj
+            refine ⟨_, by simp only [List.getElem?_append_right (Nat.le_refl _), Nat.sub_self, List.getElem?_cons_zero]; rfl, ?_, ?_⟩
+            · exact htu
+            · exact hv
+          · simp at hlj
+  · exact keep _
+
+theorem foldl_AOnly (o : NyctAlertsOpts) (es : List Entity) (st : AlertPass) (h : AOnly st) : AOnly (es.foldl (passStep o) st) := by
+  induction es generalizing st with
+  | nil => exact h
+  | cons e r ih => exact ih _ (passStep_AOnly o st e h)
+
+/-- **the alerts of a parse with the NYCT alerts extension** are the pre-pass entries that are not
+    skipped, each turned into an alert, in feed order -/
+theorem C17_alerts_end_to_end (o : NyctAlertsOpts) (m : Msg) :
+    (parse (.alerts o) m).alerts =
+      ((m.entities.foldl (passStep o) {}).done.filter (fun p => !p.2)).filterMap (fun p => alertOf p.1) := by
+  simp only [parse, finish, C02_alerts_exact, C17_prepass_is_fold]
+
+/-- **an elevator group in the result**: for every group of a feed, `Realtime.Alerts` contains the
+    alert built from the group's entry – id the documented id, cause maintenance, effect
+    accessibility issue, informing exactly the distinct stops of all the group's members -/
+theorem C17_group_alert_in_result (o : NyctAlertsOpts) (m : Msg) (k : Str) (i : Nat)
+    (h : alookup k (m.entities.foldl (passStep o) {}).groups = some i) :
+    ∃ fa : AlertMsg,
+      fa.informed = (firstOccurrences (memberStops o k m.entities)).map stopSel ∧
+      fa.cause = some Gen.NyctTables.elevatorCause ∧ fa.effect = some Gen.NyctTables.elevatorEffect ∧
+      (parseAlert k fa).1 ∈ (parse (.alerts o) m).alerts := by
+  obtain ⟨ent, fa, hd, hid, hal, hinf, hc, he⟩ := C17_group_stops o m.entities k i h
+  obtain ⟨p, hp, htu, hv⟩ := foldl_AOnly o m.entities {} (by intro k i hl; simp [alookup] at hl) k i h
+  rw [hd] at hp
+  cases hp
+  refine ⟨fa, hinf, hc, he, ?_⟩
+  rw [C17_alerts_end_to_end]
+  refine List.mem_filterMap.mpr ⟨(ent, false), List.mem_filter.mpr ⟨List.mem_of_getElem? hd, by simp⟩, ?_⟩
+  simp only at htu hv
+  simp [alertOf, htu, hv, hal, hid]
+
+end Gtfs.Rt
+
+namespace Gtfs.Rt
+/-! ## non-vacuity: "A10N#EL1" and "A10S#EL1" under the in-station policy form the group "A10#EL1" at position 0,
+    informing the two platforms -/
+private def elN : Entity := { id := [65, 49, 48, 78, 35, 69, 76, 49], alert := some {} }
+private def elS : Entity := { id := [65, 49, 48, 83, 35, 69, 76, 49], alert := some {} }
+private def optsSt : NyctAlertsOpts := { policy := .station }
+example : alookup [65, 49, 48, 35, 69, 76, 49] (([elN, elS] : List Entity).foldl (passStep optsSt) {}).groups = some 0 := by decide
+example : firstOccurrences (memberStops optsSt [65, 49, 48, 35, 69, 76, 49] [elN, elS]) = [[65, 49, 48, 78], [65, 49, 48, 83]] := by decide
+example : ((parse (.alerts optsSt) { entities := [elN, elS] }).alerts.map (·.id)) = [[65, 49, 48, 35, 69, 76, 49]] := by decide
 end Gtfs.Rt
